@@ -57,6 +57,19 @@ def stateTypes (cmd : String) (args : List String) : Option String :=
         | some r => toString (r.readsExt e')
         | none => "norow"
       | _, _ => "BADINPUT"
+  -- `st.reg <qual.name.ident>,… <key>,…`: a history of register calls on an empty dictionary, then the object found under each key
+  | "st.reg", [calls, keys] => some <|
+      let cs : List (Str × Obj) := (if calls == "-" then [] else calls.splitOn ",").filterMap (fun c =>
+        match c.splitOn "." with
+        | [q, n, i] => (match decChars q, decChars n, decChars i with
+            | some q, some n, some i => some (q, ({ name := n, ident := i } : Obj))
+            | _, _, _ => none)
+        | _ => none)
+      let d := registerAll [] cs
+      String.intercalate "," ((keys.splitOn ",").map (fun k =>
+        match decChars k with
+        | some k' => (match lookupO k' d with | some o => encChars o.name | none => "~")
+        | none => "BAD"))
   | "st.esc", [h] => some <| match decChars h with
       | some s => encChars (jsonEscape s)
       | none => "BADINPUT"
